@@ -58,6 +58,34 @@ func famqSystem(c *Ctx) {
 	for i := 0; i < c.pick(12, 100); i++ {
 		add("lifecycle")
 	}
+	if c.wants("C20") {
+		// a pipeline backed up to its file stage behind a consumer that takes nothing, then ended from outside
+		for i := 0; i < c.pick(6, 60) && !qHangSeen; i++ {
+			add("saturate")
+		}
+		// a caller context whose cancellation reaches the query's internal context late
+		for i := 0; i < c.pick(10, 100); i++ {
+			add("latecancel")
+		}
+	}
+	if c.wants("C21") {
+		// a store whose requests honour the context, the query ended while a read is in flight
+		for i := 0; i < c.pick(15, 150); i++ {
+			add("inread")
+		}
+	}
+	if c.wants("C21", "C22") {
+		// a slot of the full semaphore handed to a parked worker just as its query ends
+		for i := 0; i < c.pick(10, 100); i++ {
+			add("handoff")
+		}
+	}
+	if c.wants("C23") {
+		// block filter regions larger than one chunk read, a failure on a later chunk
+		for i := 0; i < c.pick(6, 40); i++ {
+			add("bigfilter")
+		}
+	}
 	for i := 0; i < c.pick(100, 1400); i++ {
 		add("random")
 	}
@@ -99,6 +127,11 @@ func famqCursor(c *Ctx) {
 	}
 	for i := 0; i < c.pick(40, 400); i++ {
 		add("d7")
+	}
+	if c.wants("C20") {
+		for i := 0; i < c.pick(60, 600); i++ {
+			add("late")
+		}
 	}
 	for i := 0; i < c.pick(500, 6000); i++ {
 		add("random")
